@@ -50,8 +50,12 @@ Definition is_inner (b : branch) : bool := match b with BInner _ => true | _ => 
 Definition is_const (b : branch) : bool := match b with BConst => true | _ => false end.
 
 Definition point_shape_ok (sh : acc_shape) : bool :=
-  match sh with ALeafOrFold e bs => exn_eqb e ValueError && existsb (fun b => match b with BAny => true | _ => false end) bs
-           | _ => false end.
+  match sh with
+  | ALeafOrFold e bs =>
+      exn_eqb e ValueError && existsb (fun b => match b with BAny | BSum true => true | _ => false end) bs
+      && negb (existsb (fun b => match b with BSum false => true | _ => false end) bs)
+  | _ => false
+  end.
 Definition expr_shape_ok (sh : acc_shape) : bool :=
   match sh with
   | ALeafOrFold e bs => exn_eqb e ValueError && existsb is_leafexpr bs && existsb is_inner bs && existsb is_const bs
@@ -74,7 +78,7 @@ Section Contract.
   Lemma leaf_raise_p : leaf_raise_of shp = ValueError.
   Proof.
     pose proof Hp as H. destruct shp; try discriminate. cbn in H. apply andb_true_iff in H. destruct H as [H _].
-    now apply exn_eqb_eq.
+    apply andb_true_iff in H. destruct H as [H _]. now apply exn_eqb_eq.
   Qed.
   Lemma leaf_raise_e : leaf_raise_of she = ValueError.
   Proof.
@@ -83,43 +87,100 @@ Section Contract.
     apply andb_true_iff in H. destruct H as [H _]. now apply exn_eqb_eq.
   Qed.
 
-  Lemma evp_lin_cons : forall t rest,
-      evp (PLin None (t :: rest)) =
-      match evp t with
-      | Raise e => Raise e
-      | Value (VVec n) => match vec_iadd dim n with Raise e => Raise e | Value _ => evp (PLin None rest) end
-      | Value _ => Raise TypeError
-      end.
-  Proof. reflexivity. Qed.
-
   Lemma vec_iadd_cases : forall a n, vec_iadd a n = Value (VVec a) \/ vec_iadd a n = Raise ValueError.
   Proof. intros a n. unfold vec_iadd. destruct (Nat.eqb n a || Nat.eqb n 1); auto. Qed.
+  Lemma vec_add_cases : forall a n, (exists m, vec_add a n = Value (VVec m)) \/ vec_add a n = Raise ValueError.
+  Proof.
+    intros a n. unfold vec_add. destruct (Nat.eqb n a); [left; eauto|].
+    destruct (Nat.eqb a 1); [left; eauto|]. destruct (Nat.eqb n 1); [left; eauto|auto].
+  Qed.
+
+  Lemma pending_lin : forall ts, pending_p (PLin None ts) = existsb pending_p ts.
+  Proof. induction ts as [|t r IH]; [reflexivity|]. cbn [existsb]. rewrite <- IH. reflexivity. Qed.
+
+  (** the generated mode is never "re-binding fold whose empty sum stays the scalar 0" *)
+  Lemma mode_ok : point_mode shp <> Rebind false.
+  Proof.
+    pose proof Hp as H. unfold point_mode, branches_of. destruct shp as [e bs| |]; try discriminate. cbn in H.
+    apply andb_true_iff in H. destruct H as [_ H]. apply negb_true_iff in H.
+    destruct (find (fun b => match b with BSum _ => true | _ => false end) bs) as [b|] eqn:F; [|discriminate].
+    destruct b; try discriminate. destruct empty_is_null; [discriminate|].
+    exfalso. apply find_some in F. destruct F as [Hin _].
+    assert (existsb (fun b => match b with BSum false => true | _ => false end) bs = true)
+      by (apply existsb_exists; exists (BSum false); auto).
+    congruence.
+  Qed.
+
+  Definition pcontract (ev : point -> result) (t : point) : Prop :=
+    (forall v, ev t = Value v -> exists n, v = VVec n)
+    /\ (forall e, ev t = Raise e -> e = ValueError)
+    /\ (pending_p t = true -> ev t = Raise ValueError).
+
+  (** the loop of Point.eval, for any accumulator: vectors only, ValueError only, and ValueError as soon as
+      one key is pending *)
+  Lemma fold_contract : forall ev mode ts,
+      mode <> Rebind false -> Forall (pcontract ev) ts ->
+      forall acc,
+        (forall v, fold_points ev mode dim acc ts = Value v -> exists n, v = VVec n)
+        /\ (forall e, fold_points ev mode dim acc ts = Raise e -> e = ValueError)
+        /\ (existsb pending_p ts = true -> fold_points ev mode dim acc ts = Raise ValueError).
+  Proof.
+    intros ev mode ts Hmode HF. induction HF as [|t rest Ht Hrest IH]; intro acc.
+    - cbn. split; [|split]; [| |intro; discriminate].
+      + intros v H. destruct acc; [inversion H; eauto|]. destruct mode as [|b]; [inversion H; eauto|].
+        destruct b; [inversion H; eauto|congruence].
+      + intros e H. destruct acc; [discriminate|]. destruct mode as [|b]; [discriminate|]. destruct b; discriminate.
+    - destruct Ht as [Tv [Tr Tp]].
+      change (fold_points ev mode dim acc (t :: rest)) with
+        (match ev t with
+         | Raise e => Raise e
+         | Value (VVec n) =>
+             match (match acc, mode with
+                    | None, _ => Value (VVec n)
+                    | Some a, InPlace => vec_iadd a n
+                    | Some a, Rebind _ => vec_add a n
+                    end) with
+             | Value (VVec a') => fold_points ev mode dim (Some a') rest
+             | Value _ => Raise TypeError
+             | Raise e => Raise e
+             end
+         | Value _ => Raise TypeError
+         end).
+      cbn [existsb].
+      destruct (ev t) as [v|e] eqn:Et.
+      + destruct (Tv v eq_refl) as [n ->].
+        assert (Hc : (exists m, (match acc, mode with
+                                 | None, _ => Value (VVec n)
+                                 | Some a, InPlace => vec_iadd a n
+                                 | Some a, Rebind _ => vec_add a n
+                                 end) = Value (VVec m))
+                     \/ (match acc, mode with
+                         | None, _ => Value (VVec n)
+                         | Some a, InPlace => vec_iadd a n
+                         | Some a, Rebind _ => vec_add a n
+                         end) = Raise ValueError).
+        { destruct acc as [a|]; [|left; eauto]. destruct mode.
+          - destruct (vec_iadd_cases a n) as [H|H]; [left; eauto|auto].
+          - apply vec_add_cases. }
+        destruct Hc as [[m Hm]|Hr].
+        * rewrite Hm. destruct (IH (Some m)) as [I1 [I2 I3]]. repeat split; auto.
+          intro Hpd. apply orb_true_iff in Hpd. destruct Hpd as [Hpd|Hpd]; [specialize (Tp Hpd); discriminate|auto].
+        * rewrite Hr. repeat split; intros; try discriminate; congruence.
+      + pose proof (Tr e eq_refl) as ->. repeat split; intros; try discriminate; congruence.
+  Qed.
 
   (** Point.eval: values are vectors; the only exception is ValueError; an unsolved point raises it *)
-  Lemma point_contract : forall p,
-      (forall v, evp p = Value v -> exists n, v = VVec n)
-      /\ (forall e, evp p = Raise e -> e = ValueError)
-      /\ (pending_p p = true -> evp p = Raise ValueError).
+  Lemma point_contract : forall p, pcontract evp p.
   Proof.
-    induction p as [v|c ts IH] using point_ind'.
+    induction p as [v|c ts IH] using point_ind'; unfold pcontract.
     - destruct v as [n|]; cbn [eval_point pending_p].
       + repeat split; intros; try discriminate. inversion H. eauto.
       + rewrite leaf_raise_p. repeat split; intros; try discriminate; congruence.
     - destruct c as [n|].
       + cbn [eval_point pending_p]. repeat split; intros; try discriminate. inversion H. eauto.
-      + induction ts as [|t rest IHts].
-        * cbn. repeat split; intros; try discriminate. inversion H. eauto.
-        * inversion IH as [|? ? Ht Hrest]; subst. specialize (IHts Hrest).
-          destruct Ht as [Tv [Tr Tp]]. destruct IHts as [Rv [Rr Rp]].
-          rewrite evp_lin_cons.
-          assert (Hpend : pending_p (PLin None (t :: rest)) = pending_p t || pending_p (PLin None rest)) by reflexivity.
-          destruct (evp t) as [v|e] eqn:Et.
-          -- destruct (Tv v eq_refl) as [n ->].
-             destruct (vec_iadd_cases dim n) as [Hi|Hi]; rewrite Hi.
-             ++ repeat split; auto. intro Hpd. rewrite Hpend in Hpd. apply orb_true_iff in Hpd.
-                destruct Hpd as [Hpd|Hpd]; [specialize (Tp Hpd); discriminate|auto].
-             ++ repeat split; intros; try discriminate; congruence.
-          -- pose proof (Tr e eq_refl) as ->. repeat split; intros; try discriminate; congruence.
+      + rewrite pending_lin.
+        change (evp (PLin None ts)) with (fold_points evp (point_mode shp) dim (point_init shp dim) ts).
+        apply fold_contract; [exact mode_ok|exact IH].
   Qed.
 
   Lemma point_pending : forall p, pending_p p = true -> evp p = Raise ValueError.
